@@ -99,8 +99,8 @@ let str_obs = function
   | ObOk -> "b ok"
   | ObState None -> "u none"
   | ObState (Some s) -> "u " ^ str_state s
-  | ObSave true -> "s ok"
-  | ObSave false -> "s PANIC"
+  | ObSave (Some k) -> "s ok " ^ hex_of_nlist k
+  | ObSave None -> "s PANIC"
   | ObLoad r -> "l " ^ str_lres r
   | ObVals VNoState -> "v nostate"
   | ObVals VNoSet -> "v noset"
